@@ -27,9 +27,20 @@ var c06Triggers = []string{"DESTROY-5", "DESTROY+0", "DESTROY+7", "after_DESTROY
 //verif:entry HarnessTeardown unwind=96 preempt=0 timers=lazy reach=destroyed,refused stub=github.com/AliceO2Group/Control/common/utils.TimeTrack nosched=github.com/AliceO2Group/Control/core/the.mu steps=8000000
 //verif:thorough HarnessTeardown preempt=1 paths=600000
 func HarnessTeardown() {
+	c06Teardown(vrt.IntRange("hooks", 0, 2-vrt.Tier()), false) // thorough explores pre-emptions with at most one hook
+}
+
+// The same destroy with no hook task but, optionally, a call hook fired by the teardown itself (trigger
+// leave_<current state>) whose await point is never reached, and a task whose agent was reported lost
+// before (no longer locked, still attached to its role).
+//verif:entry HarnessTeardownLeftovers unwind=96 preempt=0 timers=lazy reach=destroyed,refused stub=github.com/AliceO2Group/Control/common/utils.TimeTrack nosched=github.com/AliceO2Group/Control/core/the.mu steps=8000000
+func HarnessTeardownLeftovers() {
+	c06Teardown(0, true)
+}
+
+func c06Teardown(nhooks int, leftovers bool) {
 	state := c06States[vrt.IntRange("state", 0, len(c06States)-1)]
 	force := vrt.Bool("force")
-	nhooks := vrt.IntRange("hooks", 0, 2-vrt.Tier()) // thorough explores pre-emptions with at most one hook
 	names := []string{"t1", "t2", "h1", "h2"}[:2+nhooks]
 	events := make(chan event.Event, 16)
 	var world *task.VerifWorld
@@ -52,6 +63,9 @@ func HarnessTeardown() {
 	rec := &fenvRec{}
 	callStarted := make(chan struct{})
 	rec.onCall = func(c *callable.Call) error {
+		if c.GetName() != "root.c" {
+			return nil // the leave_<state> hook below: returns at once and then waits to be awaited or cancelled
+		}
 		close(callStarted)
 		select {} // an integration call that never returns on its own
 	}
@@ -68,6 +82,12 @@ func HarnessTeardown() {
 			hookDead[h.GetTaskId()] = true
 		}
 		roles = append(roles, r)
+	}
+	if leftovers && vrt.Bool("leave.hook") { // a call fired by the teardown itself (leaving the current state) and awaited at a point never reached
+		roles = append(roles, workflow.NewCallRole("lv", task.Traits{Trigger: "leave_" + state, Await: "before_NEVER+0", Timeout: "5s"}, "verif.Hook()", ""))
+	}
+	if leftovers && vrt.Bool("t2.agent.lost") { // the agent of t2 was reported lost earlier (HandleAgentFailed): t2 is no longer locked but still hangs under its role
+		world.AgentLost(plain[1])
 	}
 	callRole := workflow.NewCallRole("c", task.Traits{Trigger: "before_NEVER+0", Await: "before_NEVER+0", Timeout: "5s"}, "verif.Hook()", "")
 	roles = append(roles, callRole)
@@ -115,6 +135,13 @@ func HarnessTeardown() {
 	}
 	vrt.Assert(!triggeredWhilePlainOwned, "destroy-hooks-run-only-after-the-other-tasks-were-released")
 	vrt.Assert(pending.Cancel() == false, "never-awaited-call-was-cancelled-by-teardown")
+	for _, byWeight := range env.callsPendingAwait {
+		for _, calls := range byWeight {
+			for _, c := range calls {
+				vrt.Assert(c == nil || c.Cancel() == false, "no-call-of-a-destroyed-environment-is-left-waiting")
+			}
+		}
+	}
 	vrt.Reach("destroyed")
 	_ = errors.New
 }
